@@ -179,17 +179,27 @@ def parseFitFieldArray (arch : Endian) (fd : FieldDef) (k : SlotKind) (tmp : Byt
 
 /-! ### time stamps -/
 
+/-- the compressed-timestamp reference kept by the decoder -/
+structure TsRef where
+  timestamp : Nat
+  lastOff : Nat
+deriving DecidableEq, Repr, Inhabited
+
+/-- advance the reference by a 5-bit offset (compressed-timestamp header) -/
+def tsAdvance (timestamp lastOff off : Nat) : Nat :=
+  (timestamp + ((off + 32 - lastOff) % 32)) % 2 ^ 32
+
 /-- `parseTimeStamp`: returns the new field value (if any) and the updated reference -/
-def parseTimeStamp (st : DecSt) (pf : PField) (u32 : Nat) : Option Val × DecSt :=
-  if u32 = 0xFFFFFFFF then (none, st)
+def parseTimeStamp (ts : TsRef) (pf : PField) (u32 : Nat) : Option Val × TsRef :=
+  if u32 = 0xFFFFFFFF then (none, ts)
   else if tcKind pf.tcode = .timeUTC then
-    let st := if pf.num = fieldNumTimeStamp then { st with timestamp := u32, lastOff := u32 % 32 } else st
-    (some (.t u32 0 0), st)
+    let ts' := if pf.num = fieldNumTimeStamp then { timestamp := u32, lastOff := u32 % 32 } else ts
+    (some (.t u32 0 0), ts')
   else
-    if st.timestamp = 0 ∨ st.timestamp < systemTimeMarker then
-      (some (.t u32 0 1), st)            -- no reference: zero offset; the reference is not touched
+    if ts.timestamp = 0 ∨ ts.timestamp < systemTimeMarker then
+      (some (.t u32 0 1), ts)            -- no reference: zero offset; the reference is not touched
     else
-      (some (.t st.timestamp ((u32 : Int) - (st.timestamp : Int)) 1), st)
+      (some (.t ts.timestamp ((u32 : Int) - (ts.timestamp : Int)) 1), ts)
 
 /-! ### data records -/
 
@@ -208,14 +218,16 @@ def padTmp (arch : Endian) (btype : Nat) (raw : Bytes) (dsize psize : Nat) : Byt
   else raw
 
 inductive FieldsRes
-  | ok (m : Option Msg) (st : DecSt)
-  | fail (o : Outcome)
+  | ok (m : Option Msg) (ts : TsRef)
+  | err                      -- "unknown base type" error
+  | panic
 
-/-- one field of `parseDataFields`, after its `dsize` bytes have been read -/
+/-- One field of `parseDataFields`, after its `dsize` bytes have been read.  It can only
+    change the message under construction and the timestamp reference. -/
 def applyField (P : Profile) (dm : DefMsg) (known : Bool) (fd : FieldDef) (raw : Bytes)
-    (m : Option Msg) (st : DecSt) : FieldsRes :=
+    (m : Option Msg) (ts : TsRef) : FieldsRes :=
   match P.getField dm.global fd.num with
-  | none => .ok m st
+  | none => .ok m ts
   | some pf =>
     let pb := tcBase pf.tcode
     -- native fields are decoded by the definition's own type from tmp[:dsize]; only time and
@@ -224,45 +236,47 @@ def applyField (P : Profile) (dm : DefMsg) (known : Bool) (fd : FieldDef) (raw :
       if pb ≠ Base.string ∧ !tcArray pf.tcode ∧ tcKind pf.tcode ≠ .native then
         padTmp dm.arch fd.btype raw fd.size (Base.size pb)
       else raw
-    (
-      if !known then .ok m st
-      else match m, P.msg? dm.global with
-        | some msg, some pm =>
-          match pm.layout[pf.sindex]? with
-          | none => .fail (panicOut st)                -- msgv.Field(i) out of range
-          | some k =>
-            let store (v : Option Val) (st : DecSt) : FieldsRes :=
-              match v with
-              | none => .ok (some msg) st
-              | some v => .ok (some { msg with vals := setAt msg.vals pf.sindex v }) st
-            match tcKind pf.tcode with
-            | .native =>
-              let r := if !tcArray pf.tcode then parseFitField dm.arch fd k (tmp.take fd.size)
-                       else parseFitFieldArray dm.arch fd k (tmp.take fd.size)
-              match r with
-              | .ok v => store v st
-              | .err => .fail (fail st .other)
-              | .panic => .fail (panicOut st)
-            | .timeUTC | .timeLocal =>
-              if tmp.length < 4 then .fail (panicOut st)
-              else
-                let (v, st') := parseTimeStamp st pf (dm.arch.dec (tmp.take 4))
-                if v.isSome ∧ k ≠ .time then .fail (panicOut st') else store v st'
-            | .lat =>
-              if tmp.length < 4 then .fail (panicOut st)
-              else if k ≠ .lat then .fail (panicOut st)
-              else
-                let s := toSigned 32 (dm.arch.dec (tmp.take 4))
-                -- NewLatitude
-                let s' : Int := if s = 0x7FFFFFFF then 0x7FFFFFFF
-                  else if s < -1073741824 ∨ s > 1073741823 then 0x7FFFFFFF else s
-                store (some (.lat s')) st
-            | .lng =>
-              if tmp.length < 4 then .fail (panicOut st)
-              else if k ≠ .lng then .fail (panicOut st)
-              else store (some (.lng (toSigned 32 (dm.arch.dec (tmp.take 4))))) st
-            | .unknown _ => .fail (panicOut st)        -- "unreachable: unknown kind"
-        | _, _ => .fail (panicOut st))                 -- known message without a struct value
+    if !known then .ok m ts
+    else match m, P.msg? dm.global with
+      | some msg, some pm =>
+        match pm.layout[pf.sindex]? with
+        | none => .panic                               -- msgv.Field(i) out of range
+        | some k =>
+          let store (v : Option Val) (ts : TsRef) : FieldsRes :=
+            match v with
+            | none => .ok (some msg) ts
+            | some v => .ok (some { msg with vals := setAt msg.vals pf.sindex v }) ts
+          match tcKind pf.tcode with
+          | .native =>
+            let r := if !tcArray pf.tcode then parseFitField dm.arch fd k (tmp.take fd.size)
+                     else parseFitFieldArray dm.arch fd k (tmp.take fd.size)
+            match r with
+            | .ok v => store v ts
+            | .err => .err
+            | .panic => .panic
+          | .timeUTC | .timeLocal =>
+            if tmp.length < 4 then .panic
+            else
+              let (v, ts') := parseTimeStamp ts pf (dm.arch.dec (tmp.take 4))
+              if v.isSome ∧ k ≠ .time then .panic else store v ts'
+          | .lat =>
+            if tmp.length < 4 then .panic
+            else if k ≠ .lat then .panic
+            else
+              let s := toSigned 32 (dm.arch.dec (tmp.take 4))
+              -- NewLatitude
+              let s' : Int := if s = 0x7FFFFFFF then 0x7FFFFFFF
+                else if s < -1073741824 ∨ s > 1073741823 then 0x7FFFFFFF else s
+              store (some (.lat s')) ts
+          | .lng =>
+            if tmp.length < 4 then .panic
+            else if k ≠ .lng then .panic
+            else store (some (.lng (toSigned 32 (dm.arch.dec (tmp.take 4))))) ts
+          | .unknown _ => .panic                       -- "unreachable: unknown kind"
+      | _, _ => .panic                                 -- known message without a struct value
+
+def DecSt.ts (st : DecSt) : TsRef := ⟨st.timestamp, st.lastOff⟩
+def DecSt.setTs (st : DecSt) (ts : TsRef) : DecSt := { st with timestamp := ts.timestamp, lastOff := ts.lastOff }
 
 /-- the field loop of `parseDataFields` -/
 def parseFields (P : Profile) (dm : DefMsg) (known : Bool) :
@@ -275,9 +289,10 @@ def parseFields (P : Profile) (dm : DefMsg) (known : Bool) :
         { st with unkF := bump (dm.global, fd.num) st.unkF }
       else st
     rd st fd.size fun raw st =>
-      match applyField P dm known fd raw m st with
-      | .fail o => .done o
-      | .ok m st => parseFields P dm known fds m st cont
+      match applyField P dm known fd raw m st.ts with
+      | .err => .done (fail st .other)
+      | .panic => .done (panicOut st)
+      | .ok m ts => parseFields P dm known fds m (st.setTs ts) cont
 
 /-- developer fields are read and dropped -/
 def skipDev : List DevDesc → DecSt → (DecSt → DProg) → DProg
@@ -305,7 +320,7 @@ def parseData (P : Profile) (hb : Nat) (compressed : Bool) (st : DecSt)
       if !compressed ∨ st.timestamp = 0 then body m st
       else
         let off := hb % 32
-        let ts : Nat := (st.timestamp + ((off + 32 - st.lastOff) % 32)) % 2 ^ 32
+        let ts : Nat := tsAdvance st.timestamp st.lastOff off
         let st := { st with timestamp := ts, lastOff := off }
         match P.getField dm.global fieldNumTimeStamp with
         | none => body m st
